@@ -21,7 +21,7 @@ META = {
         "R04.3": "all-or-nothing removal: size >= arity dominates the first pop; Underflow payloads; top* take &self",
         "R04.4": "LIFO order of top/top2/top3/pop2/pop3/push_many/try_extend/discard; each operation hands self.values out mutably only to the calls it is built from",
         "R04.5": "panic-site audit (A8) of the stack API",
-        "R04.6": "inventory of &mut self operations in Stack's impls: each is decided by R04.1-R04.4 or is all-or-nothing by construction (at most one mutating call per path, none in a loop or per-element closure)",
+        "R04.6": "inventory of &mut self operations in Stack's impls: each is decided by R04.1-R04.4 or is all-or-nothing by construction (at most one mutating call per path, none in a loop or per-element closure); an unknown operation reachable from outside changes the storage only through the decided operations; no inherent method hides a TryExtend method",
     },
     "trusted_base": ["std Vec::push/pop/extend/truncate/last/get/len, slice::reverse, Iterator::rev/take", "uecfacts driver + uecheck rule engine"],
     "assumptions": [],
@@ -169,11 +169,33 @@ def len_lt_k(cond, val, k):
     return False
 
 
+def hands_out_values_mutably(a):
+    mutable = False
+    while isinstance(a, tuple) and a:
+        if a[0] == "ref":
+            mutable = mutable or (len(a) > 2 and bool(a[2]))
+            if mutable and is_values(a[1]):
+                return True
+            a = a[1]
+        elif a[0] in ("deref",):
+            a = a[1]
+        elif a[0] == "cast" and len(a) > 2:
+            a = a[2]
+        elif a[0] == "call" and a[3] and callee_is(a, "DerefMut::deref_mut", "IndexMut::index_mut", "Vec::as_mut_slice", "[T]::get_mut", "[T]::split_at_mut", "Option::unwrap", "Option::expect"):
+            mutable = True
+            a = a[3][0]
+        else:
+            break
+    return False
+
+
 def grows(p):
     return [c for c in p.calls() if callee_is(c, "Vec::push", "Extend::extend", "Vec::extend", "Vec::insert", "Vec::append", "Vec::extend_from_slice", "Vec::resize")]
 
 
 def check(ctx):
+    from .common import shadowing_audit
+    ctx.floor('R04.6', shadowing_audit(ctx, 'R04.6', ('collectable::',)), 1, 'TryExtend impls of Stack (shadowing audit)')
     from .ctors import check_table
     check_table(ctx, "C04", "R04.2")
     F = ctx.F
@@ -439,6 +461,15 @@ def try_extend_rules(ctx, f):
                     bad = "makes %d mutating calls on one path (%s)" % (len(mc), ", ".join(short(c, 1) for c in mc[:3]))
                 elif mc and p.end.startswith("loop:"):
                     bad = "calls %s inside a loop" % short(mc[0], 2)
+        # an operation the rules do not know, reachable from outside (public, or a trait method such as an overridden
+        # provided method of TryExtend / Extend / Default): it may change the storage only *through* the operations decided
+        # above - a direct mutable access to self.values has no capacity guard, order clause or roll-back that anything checked
+        if bad is None and (fn.pub or fn.trait_item):
+            direct = sorted({short(c, 3) for g in fam for p in ctx.paths(g) if p.end != "unreachable" for c in p.calls()
+                             if c[3] and any(hands_out_values_mutably(a) for a in c[3]) and
+                             not callee_is(c, "Vec::reserve", "Vec::reserve_exact", "Vec::shrink_to_fit", "Vec::shrink_to", "Vec::try_reserve", "Vec::try_reserve_exact")})
+            if direct:
+                bad = "changes self.values directly (%s) instead of through push / push_many / try_extend / pop* / discard, whose guards and order the rules decide" % ", ".join(direct)
         ctx.check(bad is None, "R04.6", "mutator/%s/all-or-nothing-by-construction" % fn.id.replace(" ", ""), "at most one mutating call per path, none repeated", fn.at(),
                   bad_detail="%s is an operation on the stack that the rules do not know; it %s, so a failure after a partial change is possible (every operation must succeed completely or leave the contents as they were)" % (fn.id, bad))
     ctx.floor("R04.6", n_mut, 8, "&mut self operations in Stack's impls")
@@ -455,24 +486,6 @@ def try_extend_rules(ctx, f):
         "try_extend": ("Vec::extend", "Extend::extend", "Vec::push", "Vec::truncate", "[T]::reverse", "IndexMut::index_mut", "DerefMut::deref_mut", "Vec::as_mut_slice", "[T]::get_mut", "[T]::split_at_mut"),
     }
 
-    def hands_out_values_mutably(a):
-        mutable = False
-        while isinstance(a, tuple) and a:
-            if a[0] == "ref":
-                mutable = mutable or (len(a) > 2 and bool(a[2]))
-                if mutable and is_values(a[1]):
-                    return True
-                a = a[1]
-            elif a[0] in ("deref",):
-                a = a[1]
-            elif a[0] == "cast" and len(a) > 2:
-                a = a[2]
-            elif a[0] == "call" and a[3] and callee_is(a, "DerefMut::deref_mut", "IndexMut::index_mut", "Vec::as_mut_slice", "[T]::get_mut", "[T]::split_at_mut", "Option::unwrap", "Option::expect"):
-                mutable = True
-                a = a[3][0]
-            else:
-                break
-        return False
     n_ops = 0
     for opname, allowed in sorted(BUILT_FROM.items()):
         fid = TE if opname == "try_extend" else S + opname
@@ -542,6 +555,12 @@ def try_extend_rules(ctx, f):
             elif is_err_return(p):
                 u = underflow_err(p)
                 ctx.check("a>b" in rels and u is not None and u[3][0] == ("param", 2) and is_size(u[3][1]), "R04.3", "discard/too-few->Underflow{n,size}-without-removal", short(p.ret, 4), f.at())
+            if p.end == "return" and not is_err_return(p):
+                # exactly n removals: success is reported only when 0..n has run out, never from inside an iteration
+                lpa = [c for c in p.conds if c[0][0] == "discr" and callee_is(c[0][1], "Iterator::next") and
+                       match(c[0][1][3][0], Through(Call("IntoIterator::into_iter", Agg("Range::Range", Const(0), Param(2)), nargs=1)))]
+                ctx.check(bool(lpa) and all(c[1] == 0 for c in lpa), "R04.4", "discard/succeeds-only-when-0..n-is-exhausted", cond_str(p)[-160:], f.at(),
+                          bad_detail="discard returns Ok from inside an iteration of its 0..n loop (fewer than n elements removed): [%s]" % cond_str(p)[-300:])
         ctx.check(n_loop == 1, "R04.4", "discard/loop-body-found", "%d loop body path(s)" % n_loop, f.at())
 
     def discard_shrink_to_target(ctx):
